@@ -8,7 +8,7 @@
    points is proved below: the ledger part of (2) (status record and main-chain index are written
    by one batch), the "best block is stored" half of (1), and (1) itself outside the recorded class
    under one further decidable check on the root record. *)
-From Coq Require Import List NArith Bool Lia.
+From Coq Require Import List NArith Bool Lia PeanoNat.
 Import ListNotations.
 From C11 Require Import Model.
 From C19 Require Import Model Run.
@@ -127,7 +127,7 @@ Proof. vm_compute. reflexivity. Qed.
 Lemma recovers_refuted : ~ c19_recovers_full.
 Proof.
   intro H. specialize (H E4 (lookup_block blocks_a) 2 steps_a 10%nat genesis_height_a).
-  unfold started in H. rewrite witness_a in H. discriminate.
+  unfold started in H. rewrite witness_a in H. discriminate H.
 Qed.
 
 (* growing checkpoint lost: trunk 1..6, clean restart, sibling of block 5 *)
@@ -148,7 +148,7 @@ Proof. vm_compute. repeat split; reflexivity. Qed.
 Lemma convergence_refuted_b : ~ c19_convergence_full.
 Proof.
   intro H. specialize (H E4 (lookup_block blocks_b) 2 steps_b 16%nat eq_refl).
-  destruct witness_b as [A B]. rewrite A, B in H. discriminate.
+  destruct witness_b as [A B]. rewrite A, B in H. clear A B. discriminate H.
 Qed.
 
 (* stored block not adopted: A1..A10, B6..B8 from A5, B8 carries the link genesis -> B8 *)
@@ -163,7 +163,7 @@ Proof. split; vm_compute; reflexivity. Qed.
 Lemma convergence_refuted_c : ~ c19_convergence_full.
 Proof.
   intro H. specialize (H E4 (lookup_block blocks_c) 6 steps_c 29%nat eq_refl).
-  destruct witness_c as [A B]. rewrite A, B in H. discriminate.
+  destruct witness_c as [A B]. rewrite A, B in H. clear A B. discriminate H.
 Qed.
 
 (* finalization in flight: block 4 justified by a carried link, votes 4 -> 8 finalize it *)
@@ -182,7 +182,7 @@ Proof. vm_compute. reflexivity. Qed.
 Lemma convergence_refuted_d : ~ c19_convergence_full.
 Proof.
   intro H. specialize (H E4 (lookup_block blocks_d) 7 steps_d 24%nat eq_refl).
-  destruct witness_d as [A B]. rewrite A, B in H. discriminate.
+  destruct witness_d as [A B]. rewrite A, B in H. clear A B. discriminate H.
 Qed.
 
 (* the restarted node reports a finality state (justified 8, finalized genesis) that the crash-free
@@ -278,9 +278,10 @@ Lemma try_reorganize_shape d m us m' :
 Proof.
   unfold try_reorganize. intros H.
   destruct (m_best m =? best_chain (m_tree m)); [inversion H; auto|].
-  destruct (memN (best_chain (m_tree m)) (d_blocks d)) eqn:Hm; cbn in H; [|inversion H; auto].
-  destruct (calc_reorg U _ _ _ _ _ _) as [[att det]|]; inversion H; auto.
-  right. eauto.
+  destruct (memN (best_chain (m_tree m)) (d_blocks d)) eqn:Hm; cbn [negb] in H; [|inversion H; auto].
+  destruct (calc_reorg U _ _ _ _ _ _) as [[att det]|]; inversion H; subst.
+  - right. do 3 eexists. split; [reflexivity|exact Hm].
+  - left. reflexivity.
 Qed.
 
 Lemma forallb_app_true {A} (f : A -> bool) a b :
@@ -351,7 +352,7 @@ Definition best_stored (d : db) : Prop :=
 
 Lemma memN_put b x l : memN x l = true -> memN x (put_block b l) = true.
 Proof.
-  unfold put_block. destruct (memN b l); [auto|]. intros H. cbn.
+  unfold put_block. destruct (memN b l); [auto|]. unfold memN. intros H. cbn [existsb].
   rewrite H. apply orb_true_r.
 Qed.
 
